@@ -172,7 +172,7 @@ type workload struct {
 	Template    map[string]string
 	TemplateNil bool
 	// ingress
-	DefaultBackend *string // nil: no default backend
+	DefaultBackend *string    // nil: no default backend
 	Paths          [][]string // per rule: service names of its paths ("" allowed); nil rule = no HTTP block
 }
 
